@@ -28,6 +28,7 @@ import SqiProofs.SkelThetaSim
 import SqiProofs.SkelThetaFSim
 import SqiProofs.SkelThetaConv
 import SqiProofs.SkelThetaFConv
+import SqiModel.SkelRec
 import SqiProps.C18
 
 set_option maxRecDepth 100000
@@ -180,6 +181,18 @@ theorem balanced_chain_sound (n : Nat) (hn : 4 ≤ n) :
     (balanced n).2 = [4] ∧ (balanced n).1.all (bevOk (balancedCap n)) = true ∧
     stepIdx (balanced n).1 = List.range' 0 (n - 3) :=
   balanced_sound n hn
+
+/-! ### the balanced recursion as translated text
+
+`SqiGen.ChainSkel.theta_chain_comput_rec` is the slice of the C function produced by tools/translate/chainskel.py
+(recursive mode: leading `if (len == 0) return;`, the per-frame constants `right`, `left` substituted, self-calls with
+an explicit recursion-depth fuel, the pointers `R1`, `R2`, `P1`, `P2` as array + offset).  Tie to the hand model `rec` /
+`balanced` (the object of `balanced_rec_sound`, `balanced_stack_bound`, `balanced_chain_sound`): kernel evaluation on
+small lengths incl. a too-small stack (`skeleton_rec_agrees_small`) + the same comparison executed for every
+4 ≤ n < 257 (quick) / 1025 (thorough) on every check run (driver op `skel.rec`).  No all-inputs simulation proof for
+this routine (it has no caller in the library). -/
+
+theorem skeleton_rec_agrees_small : SqiModel.SkelRec.smallAllAgree = true := by decide +kernel
 
 /-! ## per level: the real tables -/
 
